@@ -108,6 +108,11 @@ func oracle(c *Case) (int, error) {
 		return nil
 	}
 	if err := doProbe("server start"); err != nil {
+		srv.WaitExit(2 * time.Second)
+		if !srv.Alive() && (strings.Contains(srv.Output(), "panic:") || strings.Contains(srv.Output(), "fatal error:")) {
+			// not a start-up problem: the server was up and died on a request
+			return 0, fmt.Errorf("server process died on the first, well-formed request (%s): %s\n%s", describe(marshal(probe)), srv.ExitInfo(), clip(srv.Output()))
+		}
 		return 0, fmt.Errorf("INFRA: %v", err)
 	}
 	answered := 0
